@@ -50,6 +50,9 @@ def piece_of_tracks(tracks):
     notes, sigs, caps, wf = [], [], [], True
     for ti, rel in enumerate(tracks):
         timed, dur = rel_timed(rel)
+        # validity is a matter of the timed EVENTS: the order in which a track lists the messages of one tick (a re-struck pitch entered
+        # note-on first, then the previous note's note-off) is not part of it — canonical order: note-offs before the other events of a tick
+        timed = sorted(timed, key=lambda tm: (tm[0], 0 if tm[1][TY] == OFF else 1))
         if wf_violations(timed):
             wf = False
         ns = sorted((p, on, off - on, v) for (c, p, on, off, v) in notes_of(timed))
